@@ -9,7 +9,8 @@ from props.c20 import tag_value
 # ---------------------------------------------------------------------------- frames
 def mk_frame(fields, binary=None):
     """fields: list of (key items, value items)"""
-    fs = [some(Tup([StrBuf(list(k), 'Arc<str>'), StrBuf(list(v))])) for k, v in fields]
+    from models_core import text_items
+    fs = [some(Tup([StrBuf(text_items(None, k), 'Arc<str>'), StrBuf(text_items(None, v))])) for k, v in fields]
     fc = Adt('FieldsContainer', None, 0, [VecObj(fs)])
     return Adt('Frame', None, 0, [fc, some(ByteBuf(list(binary))) if binary is not None else none()], ['fields', 'binary'])
 
